@@ -24,10 +24,12 @@ import (
 	"time"
 
 	"github.com/tinode/chat/server/auth"
+	"github.com/tinode/chat/pbx"
 	"github.com/tinode/chat/server/logs"
 	"github.com/tinode/chat/server/push"
 	"github.com/tinode/chat/server/store"
 	"github.com/tinode/chat/server/store/types"
+	"google.golang.org/protobuf/proto"
 	mem "github.com/tinode/chat/server/zzverifmem"
 )
 
@@ -100,6 +102,10 @@ type wConfig struct {
 	Anon       []int `json:"anon,omitempty"` // indices of users that log in at anonymous level
 	Media      bool  `json:"media,omitempty"` // configure the fs media handler (sticky per process)
 	Bkg        []int `json:"bkg,omitempty"`   // session slots which say {hi bkg=true}
+	// Grpc: session slots which talk protobuf: every request goes JSON -> ClientComMessage ->
+	// pbCliSerialize -> wire -> pbCliDeserialize -> dispatch (what the gRPC endpoint does), every
+	// server message pbServSerialize -> wire -> pbServDeserialize before the oracles see it.
+	Grpc []int `json:"grpc,omitempty"`
 }
 
 var wMediaOn bool
@@ -132,6 +138,7 @@ type wSess struct {
 	frames  []*ServerComMessage
 	nSeen   int
 	done    chan struct{}
+	grpc    bool // protobuf transport (wConfig.Grpc)
 	closed  bool // cleanUp has been called (by harness or after server-side stop)
 	stopped bool // write loop has exited
 	pause   atomic.Bool
@@ -408,10 +415,10 @@ func (ss *wSess) record(m any) {
 	defer ss.mu.Unlock()
 	switch v := m.(type) {
 	case *ServerComMessage:
-		ss.frames = append(ss.frames, wCopyMsg(v))
+		ss.frames = append(ss.frames, wCopyMsg(ss.viaPb(v)))
 	case []*ServerComMessage:
 		for _, x := range v {
-			ss.frames = append(ss.frames, wCopyMsg(x))
+			ss.frames = append(ss.frames, wCopyMsg(ss.viaPb(x)))
 		}
 	case []byte:
 		var x ServerComMessage
@@ -419,6 +426,32 @@ func (ss *wSess) record(m any) {
 			ss.frames = append(ss.frames, &x)
 		}
 	}
+}
+
+// viaPb: what the session's write loop does for a gRPC connection (Session.serialize ->
+// pbServSerialize), then over the wire and back into the shape client libraries read
+// (pbServDeserialize). Other connections get the message as it is.
+func (ss *wSess) viaPb(m *ServerComMessage) *ServerComMessage {
+	if !ss.grpc || m == nil {
+		return m
+	}
+	_, data := ss.s.serialize(m)
+	pm, ok := data.(*pbx.ServerMsg)
+	if !ok || pm == nil {
+		return m
+	}
+	b, err := proto.Marshal(pm)
+	if err != nil {
+		panic("protobuf server message does not marshal: " + err.Error())
+	}
+	var back pbx.ServerMsg
+	if err := proto.Unmarshal(b, &back); err != nil {
+		panic("protobuf server message does not parse back: " + err.Error())
+	}
+	if out := pbServDeserialize(&back); out != nil {
+		return out
+	}
+	return m
 }
 
 // wCopyMsg renders the message as the wire would show it and parses it back.
@@ -527,6 +560,20 @@ func (ss *wSess) sendRaw(raw []byte) {
 		return
 	}
 	ss.s.lastTouched = time.Now()
+	if ss.grpc {
+		var msg ClientComMessage
+		if json.Unmarshal(raw, &msg) == nil {
+			if pkt := pbCliSerialize(&msg); pkt != nil {
+				if b, err := proto.Marshal(pkt); err == nil {
+					var back pbx.ClientMsg
+					if proto.Unmarshal(b, &back) == nil {
+						ss.s.dispatch(pbCliDeserialize(&back))
+						return
+					}
+				}
+			}
+		}
+	}
 	ss.s.dispatchRaw(raw)
 }
 
